@@ -21,7 +21,8 @@ MODELLED = ["a DataFrame is a list of rows; the outer merge on [PATH, name] retu
 ASSUMPTIONS = ["both arguments are root Nodes with the same root name",
                "names contain no character of the separator; the separator contains none of the characters of ' (-)', ' (+)', ' (~)'",
                "no name ends in ' (-)', ' (+)' or ' (~)' (otherwise the output format itself is ambiguous)",
-               "attribute values are None, int or str; a listed attribute holds values of one type"]
+               "attribute values are None, int or str; a listed attribute holds values of one type",
+               "attr_list has no repeated entry and does not contain 'name' or 'PATH' (they would collide with the frame's own columns)"]
 
 HOSTILE = ["b", "bc", "b.c", "b(", "x+", "a b", "c)", "*", "[z]", "b$", "^a", "a|b", "\\d", "a", "ab"]
 SEPS = ["/", "/", "/", ".", "\\", "|", "::"]
